@@ -35,6 +35,8 @@ def node_text(node):
         return node.arg or ""
     if isinstance(node, ast.alias):
         return node.name
+    if isinstance(node, (ast.Global, ast.Nonlocal)):
+        return ",".join(node.names)
     return ""
 
 
@@ -66,6 +68,10 @@ def encode(root, is_pattern):
                 ph = "stmt"
                 text = node.value.id
                 hide_children = True
+            elif isinstance(node, ast.Expr):
+                # an expression statement of the pattern is a transparent wrapper ("should match to anything",
+                # shallow_match_Expr): `foo()` also matches the statement `x = foo()`; its content is its child
+                ph = "stmt"
             elif text and ph_class(text) != "none":
                 text = "*"       # a placeholder standing for a function / class / attribute / argument name
         nodes[me - 1] = {"kind": kind, "text": text, "parent": parent, "field": field, "idx": idx, "ph": ph}
@@ -106,7 +112,7 @@ def witness_of(m, own=None):
             raise RuntimeError("tree numbering of the encoder disagrees with CAIT's tree_id")
     mapped = {k.tree_id + 1 for k, _ in pairs}
     for i, n in enumerate(P, 1):
-        if n["ph"] == "none" and n["kind"] in ("Module", "Expr") and i not in mapped and all(
+        if n["ph"] in ("none", "stmt") and n["kind"] in ("Module", "Expr") and i not in mapped and all(
                 P[j - 1]["kind"] in ("Module", "Expr") for j in ancestors(P, i)):
             n["ph"] = "skip"
     mm = sorted([k.tree_id + 1, v.tree_id + 1] for k, v in pairs)
@@ -131,7 +137,7 @@ def witnesses(pattern, program):
 # sub-patterns matched INSIDE a subtree bound by an enclosing match (CaitNode.find_matches, use_previous=True):
 # they deliberately re-use the placeholder names of the enclosing patterns
 SUBPATTERNS = ["_v2_[__e__]", "_g_(__e__)", "__a__ < __b__", "__e__ == ___", "__e__ + ___", "___ * __e__", "__e__.upper()",
-               "_x_[__a__]", "-__e__", "[__e__, ___]", "_acc_ + __e__", "_x_ + __b__"]
+               "_x_[__a__]", "-__e__", "[__e__, ___]", "_acc_ + __e__", "_x_ + __b__", "_x_", "_acc_", "_var_"]
 OUTER_FOR_SUB = ["print(__e__)", "_x_ = __e__", "__a__ + __b__", "_acc_ = _acc_ + __e__", "if __e__:\n    pass",
                  "for ___ in __e__:\n    pass", "return __e__", "_x_ = __a__ + __b__",
                  "for _var_ in ___:\n    if __e__ == __str2__:\n        pass"]
@@ -199,6 +205,10 @@ PROGRAMS = [
     "try:\n    value = int(input())\nexcept ValueError:\n    value = 0\nprint(value)\n",
     "count = 0\ncount = 5\ncount = ''\ncount = False\n",
     "print(1 + 2)\nprint(2 + 1)\nprint(1 * 2 * 3)\n",
+    "a = 1\nb()\n",
+    "def f():\n    global a\n    a = 1\n",
+    "x = 5\ny = b'a'\nz = ...\n",
+    "y = 1\nx = foo()\n",
 ]
 PATTERNS = [
     "_acc_ = 0\nfor ___ in ___:\n    _acc_ = _acc_ + __e__",
@@ -210,6 +220,7 @@ PATTERNS = [
     "_x_ += 1", "import math", "math.pi", "___.pi * ___", "self.name = name", "_d_[_k_]", "[___ for ___ in ___]",
     "try:\n    pass\nexcept ValueError:\n    pass", "count = 0", "total = 0\nprint(total)", "x = 5\ny = x + 1",
     "nonexistent_name = 0", "print('absent text')", "_x_ = 12345", "zzz(___)",
+    "_x_ = 1\n_x_()", "global a, b", "global a", "x = b'a'", "x = ...", "_v_ = b'zz'", "y = 1\nfoo()",
 ]
 
 
